@@ -56,8 +56,8 @@ def work(args):
     lines[mut['line'] - 1] = mut['new']
     open(src, 'w').write('\n'.join(lines))
     try:
-        r = subprocess.run('cmake --build _build 2>&1 | tail -3', shell=True, cwd=wdir, capture_output=True, text=True, timeout=900)
-        if 'error' in r.stdout.lower() or r.returncode:
+        r = subprocess.run('cmake --build _build 2>&1 | tail -15', shell=True, cwd=wdir, capture_output=True, text=True, timeout=900)
+        if 'error' in r.stdout.lower() or 'FAILED' in r.stdout or 'build stopped' in r.stdout or r.returncode:
             return idx, mut, 'no-compile', None
         t = subprocess.run('timeout 120 ctest --test-dir _build --timeout 100 2>&1 | tail -3', shell=True, cwd=wdir, capture_output=True, text=True, timeout=300)
         if '100% tests passed' not in t.stdout:
@@ -70,7 +70,10 @@ def work(args):
             for sub in ('src', 'include', 'binding'):
                 shutil.copytree(os.path.join(wdir, sub), os.path.join(sc, sub))
             shutil.copy(os.path.join(wdir, 'CMakeLists.txt'), sc)
-            prog = facts.load(sc, use_cache=False)
+            try:
+                prog = facts.load(sc, use_cache=False)
+            except Exception as e:
+                return idx, mut, 'extract-failed', None
             fired, und = {}, {}
             for p in PIDS:
                 mod = importlib.import_module('p_' + p.lower())
